@@ -249,7 +249,7 @@ def judge_sweep(ctx, rr, summary):
                 for key, w, detail in _judge_found(ctx, tree, flavour, api, name, kd["r"], "C20:toctou:%s:racing" % what,
                                                    dict(times=kd["n"], iters=r["iters"], flips=r["flips"], replaced=os.path.relpath(tgt, tree.case))):
                     ctx.violation(key, w + " while %s was being flipped to a symlink to the secret (%d of %d lookups)" % (os.path.relpath(tgt, tree.case), kd["n"], r["iters"]), detail)
-            if len(ctx.samples) < 6:
+            if sum(1 for x in ctx.samples if x.get("kind") == "race") < 1:
                 ctx.samples.append(dict(kind="race", flavour=flavour, name=n, replaced=os.path.relpath(tgt, tree.case), lookups=r["iters"], flips=r["flips"],
                                         found=r["found"], notfound=r["notfound"], rejected=r["rejected"]))
 
@@ -283,19 +283,38 @@ def _sweep_worker(job):
     return acc
 
 
+def _merge_acc(ctx, acc, summary):
+    ctx.evaluations += acc.evaluations
+    ctx.add_sigs(acc.sigs)
+    ctx.san_reports += acc.san_reports
+    for k, v in acc.observed.items():
+        ctx.obs(k, v)
+    for k, v in acc.maxes.items():
+        ctx.obs_max(k, v)
+    for key, what, detail in acc.violations:
+        ctx.violation(key, what, detail)
+    for w in acc.inconclusive:
+        ctx.inconcl(w)
+    for smp in acc.samples:
+        if len(ctx.samples) < 6 and (smp.get("kind") != "lookup" or sum(1 for x in ctx.samples if x.get("kind") == "lookup") < 3):
+            ctx.samples.append(smp)
+    summary["leaves"] += acc.summary["leaves"]
+    summary["unfired"] += acc.summary["unfired"]
+
+
 def run(ctx):
     import multiprocessing
     thorough = ctx.tier == "thorough"
     binary = vf.build("c20_assets", "asan")
     ctx.flavors.add("asan")
     tree = _mk_tree(ctx, "tree", ctx.seed)
-    # names per flavour (each goes through getStatic and getTemplate): quick 3 x 30 000, thorough 3 x 560 000
-    chunks, chunk = (28, 20000) if thorough else (16, 1900)
+    # names per flavour (each goes through getStatic and getTemplate): quick 3 x 64 000, thorough 3 x 1 680 000
+    chunks, chunk = (84, 20000) if thorough else (16, 4000)
     ljobs = [(ctx.tmp, binary, tree, fl, ctx.seed, i, chunk) for fl in FLAVOURS for i in range(chunks)]
     sjobs = []
     for fl in FLAVOURS:
         sjobs.append((ctx.tmp, binary, fl, thorough, ctx.seed, "sweep", 0))
-        sjobs.append((ctx.tmp, binary, fl, thorough, ctx.seed + 17, "race", 60000 if thorough else 1500))
+        sjobs.append((ctx.tmp, binary, fl, thorough, ctx.seed + 17, "race", 60000 if thorough else 20000))
     mp = multiprocessing.get_context("fork")
     with mp.Pool(min(vf.NCPU, 16)) as pool:
         rs = pool.map_async(_sweep_worker, sjobs, chunksize=1)
@@ -303,22 +322,7 @@ def run(ctx):
         accs = rs.get() + rl.get()
     summary = dict(leaves=[], unfired=0)
     for acc in accs:
-        ctx.evaluations += acc.evaluations
-        ctx.add_sigs(acc.sigs)
-        ctx.san_reports += acc.san_reports
-        for k, v in acc.observed.items():
-            ctx.obs(k, v)
-        for k, v in acc.maxes.items():
-            ctx.obs_max(k, v)
-        for key, what, detail in acc.violations:
-            ctx.violation(key, what, detail)
-        for w in acc.inconclusive:
-            ctx.inconcl(w)
-        for smp in acc.samples:
-            if len(ctx.samples) < 6 and (smp.get("kind") != "lookup" or sum(1 for x in ctx.samples if x.get("kind") == "lookup") < 3):
-                ctx.samples.append(smp)
-        summary["leaves"] += acc.summary["leaves"]
-        summary["unfired"] += acc.summary["unfired"]
+        _merge_acc(ctx, acc, summary)
     if summary["unfired"]:
         ctx.inconcl("%d sweep runs never reached their swap index (lookup issued fewer calls than in the counting run)" % summary["unfired"])
     leaves = summary["leaves"]
@@ -357,6 +361,12 @@ def replay(ctx, path):
     d = (rp.get("first") or {}).get("detail") or {}
     binary = vf.build("c20_assets", "asan")
     tree = _mk_tree(ctx, "tree", rp.get("seed", 1))
+    if ":toctou:" in rp.get("key", ""):
+        # re-run the enumerated sweep (or the racing lookups) of that flavour on a fresh tree
+        mode = "race" if ":racing:" in rp["key"] else "sweep"
+        acc = _sweep_worker((ctx.tmp, binary, d.get("flavour", "fs-cached"), False, rp.get("seed", 1) + (17 if mode == "race" else 0), mode, 20000))
+        _merge_acc(ctx, acc, dict(leaves=[], unfired=0))
+        return
     if "name" not in d:
         ctx.inconcl("replay file carries no name")
         return
